@@ -36,6 +36,13 @@ def run(c):
         "C13_malformed_rrset_refused; the shipped match tables are computed by comparing the data)",
         "TLSA.Verify does not read the owner name of the record (hypothesis OwnerBlind of C13_owner_relabel_invariant; the match tables "
         "shipped per record are computed from the association data alone)",
+        "tls.ConnectionState.VerifiedChains is non-empty exactly for a handshake that completed with certificate verification switched on "
+        "(crypto/tls; ConnState.verified of the model, observed in op attempt); no function of the decision reads it "
+        "(C13_pkix_result_not_an_input, C13_attempt_mismatch_refused_even_if_pkix)",
+        "a crashed discovery: whether a panic was raised inside the lookup goroutine is a primitive result shipped to the model (ops cconn, attempt; "
+        "injected through the policy's debug-log output, the context's Deadline method read by the miekg client, or an empty server list); "
+        "the delivery's context ends once nobody can complete the future any more (the harness ends it when the future is empty and no goroutine "
+        "started by PrepareConn is left; Future.GetContext returns a value that is set without looking at the context)",
         "resolver ops: the miekg/dns client and wire format are primitives (Transport parameter of the model; the tree's is plain UDP without "
         "TCP fall-back); which configured address is a loopback address is known by construction (127.0.0.1, 127.0.0.2: yes; 0.0.0.0: no)",
     ]
@@ -55,6 +62,11 @@ def run(c):
         "to the asserted anchor or not) x 11 RRsets, client trusting no CA (first handshake fails verification, second made with InsecureSkipVerify) or "
         "the root, 12 handshake histories (no STARTTLS, STARTTLS refused, handshake broken on the 1st/2nd connection, connection dropped), base "
         "configuration with / without a ServerName / absent, 3 spellings of the MX host name, with / without resolver. "
+        "Chains that pass ordinary (PKIX) verification and carry a stray CA certificate the leaf does not chain to (G, J, M: two hierarchies), connection "
+        "states with and without VerifiedChains, every usable DANE-TA type pinning the CA certificates of either hierarchy: verify (hand-built states) "
+        "and attempt (client trusting both roots: first handshake verified). A TLSA discovery that crashes (cconn, rconn with an empty server list, "
+        "attempt): resolver without servers, panicking log output after the lookups, panic inside the resolver library at the k-th step, in worlds "
+        "with and without published records, on plaintext / encrypted / X.509-authenticated connections. "
         "Each op runs the real function and the Lean model (primitive results shipped as tables); distinct = distinct op lines",
         explanation="theorems for all record lists, chains, handshake histories and primitive behaviours; model tied to dane.go/security.go/"
         "connect.go/dnssec.go by differential runs; "
